@@ -113,11 +113,19 @@ fn parse_data_section(
 ) -> Result<(Model, Vec<StreamModels>), ModelParseError> {
     use nom::{combinator::all_consuming, sequence::terminated};
 
+    // length of one pdf record: `2 * a * b + extra` values (means, variances, optional msd)
+    let pdf_len = |a: usize, b: usize, extra: usize| {
+        a.checked_mul(b)
+            .and_then(|len| len.checked_mul(2))
+            .and_then(|len| len.checked_add(extra))
+            .ok_or(ModelParseError::InvalidHeader)
+    };
+
     let duration_model = parse_model(
         input,
         position.duration_tree,
         position.duration_pdf,
-        global.num_states * 2,
+        pdf_len(global.num_states, 1, 0)?,
     )?;
 
     let stream_models: Vec<StreamModels> = global
@@ -137,8 +145,11 @@ fn parse_data_section(
                 input,
                 pos.stream_tree,
                 pos.stream_pdf,
-                stream_data.vector_length * stream_data.num_windows * 2
-                    + (stream_data.is_msd as usize),
+                pdf_len(
+                    stream_data.vector_length,
+                    stream_data.num_windows,
+                    stream_data.is_msd as usize,
+                )?,
             )?;
 
             let gv_model = if stream_data.use_gv {
@@ -146,7 +157,7 @@ fn parse_data_section(
                     input,
                     pos.gv_tree.ok_or(ModelParseError::UseGvError)?,
                     pos.gv_pdf.ok_or(ModelParseError::UseGvError)?,
-                    stream_data.vector_length * 2,
+                    pdf_len(stream_data.vector_length, 1, 0)?,
                 )?;
                 Some(gv_model)
             } else {
